@@ -1,4 +1,20 @@
-"""Simulated transaction coordinator + marker writing (Kafka's TransactionCoordinator)."""
+"""Simulated transaction coordinator + marker writing (Kafka's TransactionCoordinator).
+
+Reviewed against Kafka's TransactionCoordinator / TransactionMetadata / TransactionMarkerChannel
+semantics (pre KIP-890 brokers, which is what the client speaks) — see REVIEW notes inline:
+ * InitProducerId on an Ongoing transaction fences: the epoch is bumped FIRST and the abort markers
+   carry the bumped epoch (prepareFenceProducerEpoch); with marker_delay > 0 the caller gets
+   CONCURRENT_TRANSACTIONS until the markers are written (as in Kafka, where the abort is
+   asynchronous) and only then a further bumped epoch;
+ * a marker updates the partition leader's producer epoch (ProducerStateManager), so leaders fence
+   zombies on their own;
+ * EndTxn during PrepareCommit/PrepareAbort: CONCURRENT_TRANSACTIONS for the same result,
+   INVALID_TXN_STATE for the other one;
+ * pending transactional offsets are materialised only for groups registered with AddOffsetsToTxn
+   (the commit marker is written only to those __consumer_offsets partitions);
+ * `move(node)` (coordinator fail-over, state survives: it is in the transaction log) and
+   `expire(tid)` (transaction.timeout.ms: coordinator-side abort with epoch bump).
+"""
 from __future__ import annotations
 
 from . import cluster as C
@@ -55,7 +71,15 @@ class TxnCoordinator:
         if t.state in (T_PREP_COMMIT, T_PREP_ABORT):
             return {"error_code": C.CONCURRENT_TRANSACTIONS, "producer_id": -1, "producer_epoch": -1}
         if t.state == T_ONGOING:
-            # fence: abort what the previous incarnation left open
+            # fence: bump the epoch, then abort what the previous incarnation left open; the
+            # markers carry the bumped epoch
+            t.epoch += 1
+            self.c.ev("txn_fence", tid=tid, epoch=t.epoch)
+            if self.marker_delay > 0:
+                t.state = T_PREP_ABORT
+                self.c.ev("txn_prepare", tid=t.tid, commit=False, fenced=True)
+                self.c.loop.call_later(self.marker_delay, self._end, t, False, True)
+                return {"error_code": C.CONCURRENT_TRANSACTIONS, "producer_id": -1, "producer_epoch": -1}
             self._end(t, commit=False, fenced=True)
         t.epoch += 1
         t.state = T_EMPTY
@@ -123,9 +147,15 @@ class TxnCoordinator:
 
     def end_txn(self, node, cls, obj, info):
         t, err = self._validate(node, obj)
+        commit = bool(obj["transaction_result"])
+        if err == C.CONCURRENT_TRANSACTIONS:
+            t0 = self.by_id.get(obj["transactional_id"])
+            # retry of the request being completed: CONCURRENT_TRANSACTIONS; the other result:
+            # INVALID_TXN_STATE (TransactionCoordinator.endTransaction)
+            if t0 is not None and t0.state == (T_PREP_ABORT if commit else T_PREP_COMMIT):
+                err = C.INVALID_TXN_STATE
         if err:
             return {"error_code": err}
-        commit = bool(obj["transaction_result"])
         if t.state == T_ONGOING:
             # obligation: no batch of the transaction may still be unacknowledged — observed by monitors
             if self.marker_delay > 0:
@@ -157,8 +187,15 @@ class TxnCoordinator:
             lg.next_offset = b.last_offset + 1
             if not commit and first is not None:
                 lg.aborted.append((t.pid, first, b.base_offset))
+            # the marker carries the (possibly bumped) epoch: the leader learns it
+            st = lg.pstate.get(t.pid)
+            if st is not None and st["epoch"] < t.epoch:
+                st["epoch"] = t.epoch
+        unregistered = [x for x in t.pending_offsets if x[0] not in t.groups]
         if commit:
             for (gid, topic, p, off) in t.pending_offsets:
+                if gid not in t.groups:
+                    continue        # no marker reaches that group's offsets partition
                 g = self.c.gc.group(gid)
                 g.offsets[(topic, p)] = (off, "")
                 g.commit_log.append({"t": self.c.loop.time(), "group": gid, "member": f"txn:{t.tid}",
@@ -166,12 +203,29 @@ class TxnCoordinator:
                                      "accepted": True, "error": 0, "ordinal": -1, "txn": getattr(t, "current", None)})
         t.history.append({"txn": getattr(t, "current", None), "commit": commit, "fenced": fenced,
                           "partitions": sorted(t.partitions), "offsets": list(t.pending_offsets),
-                          "epoch": t.epoch})
+                          "groups": sorted(t.groups), "unregistered_offsets": unregistered,
+                          "epoch": t.epoch, "t": self.c.loop.time()})
         self.c.ev("txn_end", tid=t.tid, commit=commit, fenced=fenced, partitions=sorted(t.partitions))
         t.partitions = set()
         t.groups = set()
         t.pending_offsets = []
         t.state = T_COMMITTED if commit else T_ABORTED
+
+    def move(self, new_node):
+        """Coordinator fail-over: the transaction state survives (it lives in __transaction_state)."""
+        self.c.txn_coordinator_node = new_node
+        self.c.ev("txn_coordinator_move", node=new_node)
+
+    def expire(self, tid):
+        """transaction.timeout.ms elapsed: the coordinator aborts on its own and bumps the epoch,
+        the client finds out with INVALID_PRODUCER_EPOCH on its next request."""
+        t = self.by_id.get(tid)
+        if t is None or t.state != T_ONGOING:
+            return False
+        t.epoch += 1
+        self.c.ev("txn_timeout", tid=tid, epoch=t.epoch)
+        self._end(t, commit=False, fenced=True)
+        return True
 
     def check_produce(self, txn_id, batch, topic, partition):
         """Called by the partition leader for every batch with a producer id."""
